@@ -6,7 +6,6 @@
    "use the default").  Any number of interfaces and messages. *)
 From Coq Require Import ZArith QArith List Bool Permutation Sorted.
 From Acme.C17 Require Import Model Proofs.
-Require Acme.C17.FloatRemark.
 Import ListNotations.
 Open Scope Q_scope.
 
@@ -33,13 +32,23 @@ Theorem each_message_once : forall b def load es,
 Proof. exact each_message_once_lemma. Qed.
 Print Assumptions each_message_once.
 
-(* ... with its own rate and a percentage equal to its share of the total *)
+(* ... with its own rate and a percentage equal to its share of the total.  The share is stated only
+   for a non-zero total (x / 0 = 0 in Q is a totalisation, the Go code yields NaN there);
+   `total_nonzero` derives the hypothesis on the property's domain whenever there is a message *)
 Theorem entries_spec : forall b def load es,
-  (0 < def)%Z -> b_baud b <> 0%Z -> calculate_bus_load b def = BLOk load es ->
+  (0 < def)%Z -> b_baud b <> 0%Z ->
+  ~ qsum (map (bps (b_typ b) def) (bus_msgs b)) == 0 ->
+  calculate_bus_load b def = BLOk load es ->
   Forall (fun e => e_bps e = bps (b_typ b) def (e_msg e)
                    /\ e_pct e == e_bps e / qsum (map (bps (b_typ b) def) (bus_msgs b)) * inject_Z 100) es.
 Proof. exact entries_spec_lemma. Qed.
 Print Assumptions entries_spec.
+
+Theorem total_nonzero : forall b def,
+  (0 < def)%Z -> valid_bus b -> bus_msgs b <> [] ->
+  ~ qsum (map (bps (b_typ b) def) (bus_msgs b)) == 0.
+Proof. exact total_nonzero_lemma. Qed.
+Print Assumptions total_nonzero.
 
 (* shares sum to 100 when there is a message *)
 Theorem shares_sum_100 : forall b def load es,
@@ -71,18 +80,20 @@ Theorem accepted_iff_positive : forall b def,
 Proof. exact accepted_iff_positive_lemma. Qed.
 Print Assumptions accepted_iff_positive.
 
-(* enlarging a message never decreases the load *)
-Theorem monotone_size : forall b b' def load es load' es' l1 l2 m m',
+(* enlarging a message never decreases the load — for a POSITIVE baud rate (the property says
+   non-zero; for a negative one the claim is false, see monotone_negative_baud_refuted; for zero the
+   load stays 0, see monotone_zero_baud) *)
+Theorem monotone_size_pos_baud : forall b b' def load es load' es' l1 l2 m m',
   (0 < def)%Z -> (0 < b_baud b)%Z -> b_baud b' = b_baud b -> b_typ b = 0%Z -> b_typ b' = 0%Z ->
   bus_msgs b = l1 ++ m :: l2 -> bus_msgs b' = l1 ++ m' :: l2 ->
   valid_msg m -> m_cycle m' = m_cycle m -> (m_size m <= m_size m')%Z ->
   calculate_bus_load b def = BLOk load es -> calculate_bus_load b' def = BLOk load' es' ->
   load <= load'.
 Proof. exact monotone_size_lemma. Qed.
-Print Assumptions monotone_size.
+Print Assumptions monotone_size_pos_baud.
 
-(* shortening its (effective) cycle time never decreases the load *)
-Theorem antitone_cycle : forall b b' def load es load' es' l1 l2 m m',
+(* shortening its (effective) cycle time never decreases the load — for a positive baud rate *)
+Theorem antitone_cycle_pos_baud : forall b b' def load es load' es' l1 l2 m m',
   (0 < def)%Z -> (0 < b_baud b)%Z -> b_baud b' = b_baud b -> b_typ b = 0%Z -> b_typ b' = 0%Z ->
   bus_msgs b = l1 ++ m :: l2 -> bus_msgs b' = l1 ++ m' :: l2 ->
   valid_msg m -> m_size m' = m_size m ->
@@ -90,7 +101,40 @@ Theorem antitone_cycle : forall b b' def load es load' es' l1 l2 m m',
   calculate_bus_load b def = BLOk load es -> calculate_bus_load b' def = BLOk load' es' ->
   load <= load'.
 Proof. exact antitone_cycle_lemma. Qed.
-Print Assumptions antitone_cycle.
+Print Assumptions antitone_cycle_pos_baud.
+
+(* outside the hypothesis 0 < baud: Bus.SetBaudrate accepts a negative int; then the load is
+   negative and enlarging a message or shortening its cycle time DEcreases it (recorded finding
+   c17-monotone-negative-baud) *)
+Theorem monotone_negative_baud_refuted :
+  exists b b1 b2 def load es load1 es1 load2 es2,
+    (0 < def)%Z /\ b_baud b <> 0%Z /\ valid_bus b /\ valid_bus b1 /\ valid_bus b2
+    /\ bus_msgs b = [mkMsg 0 8 100; mkMsg 1 8 10] ++ mkMsg 2 0 0 :: []
+    /\ bus_msgs b1 = [mkMsg 0 8 100; mkMsg 1 8 10] ++ mkMsg 2 3 0 :: []
+    /\ bus_msgs b2 = [mkMsg 0 8 100; mkMsg 1 8 10] ++ mkMsg 2 0 499 :: []
+    /\ calculate_bus_load b def = BLOk load es
+    /\ calculate_bus_load b1 def = BLOk load1 es1
+    /\ calculate_bus_load b2 def = BLOk load2 es2
+    /\ load1 < load /\ load2 < load.
+Proof. exact monotone_negative_baud_refuted_lemma. Qed.
+Print Assumptions monotone_negative_baud_refuted.
+
+Theorem monotone_zero_baud : forall b b' def,
+  (0 < def)%Z -> b_baud b = 0%Z -> b_baud b' = 0%Z ->
+  calculate_bus_load b def = BLOk 0 [] /\ calculate_bus_load b' def = BLOk 0 [].
+Proof. exact monotone_zero_baud_lemma. Qed.
+Print Assumptions monotone_zero_baud.
+
+(* outside valid_bus: a bus of an undefined type value with only an empty message has total rate 0
+   and its shares do not sum to 100 (recorded finding c17-nan-unknown-bus-type: Go returns NaN) *)
+Theorem shares_unknown_type_refuted :
+  exists b def load es,
+    (0 < def)%Z /\ b_baud b <> 0%Z /\ bus_msgs b <> [] /\ Forall valid_msg (bus_msgs b)
+    /\ calculate_bus_load b def = BLOk load es
+    /\ qsum (map (bps (b_typ b) def) (bus_msgs b)) == 0
+    /\ ~ qsum (map e_pct es) == inject_Z 100.
+Proof. exact shares_unknown_type_refuted_lemma. Qed.
+Print Assumptions shares_unknown_type_refuted.
 
 (* the exact load does not depend on the order in which the (map-stored) messages are visited *)
 Theorem load_order_free : forall b b' def load es load' es',
@@ -112,13 +156,3 @@ Theorem session_prefix_free : forall b pre pre' d,
   last (session b (pre ++ [d])) (BLErr ErrIsZero) = last (session b (pre' ++ [d])) (BLErr ErrIsZero).
 Proof. exact session_prefix_free_lemma. Qed.
 Print Assumptions session_prefix_free.
-
-(* Remark over IEEE binary64 (Flocq): accumulating three rates of the model's domain in two
-   different (map) orders gives two different float64 totals, one unit in the last place apart.
-   The float total is therefore determined only up to reassociation; the property is claimed on
-   the exact model above and the implementation is compared with it within a bound. *)
-Theorem float_sum_order_matters :
-  Acme.C17.FloatRemark.sum_abc <> Acme.C17.FloatRemark.sum_cba
-  /\ (Acme.C17.FloatRemark.sum_cba - Acme.C17.FloatRemark.sum_abc = 1)%Z.
-Proof. exact (conj Acme.C17.FloatRemark.float_sum_order_matters_lemma Acme.C17.FloatRemark.float_sum_orders_adjacent_lemma). Qed.
-Print Assumptions float_sum_order_matters.
